@@ -1529,6 +1529,12 @@ pub fn step(m: &M, cfg: &SpecCfg, actor: &Actor, line: &str) -> Option<Exp> {
             });
             Some(e)
         }
+        // capability negotiation by a registered client changes nothing anybody else
+        // can see (the replies themselves are not specified by any property)
+        "CAP" if !p.is_empty() => {
+            e.actor_unchecked = true;
+            Some(e)
+        }
         _ => None,
     }
 }
